@@ -1986,7 +1986,24 @@ func (x *Exec) binop(st *State, v *ssa.BinOp) Value {
 			return Ge(a, b)
 		}
 	}
-	// floats, shifts, bit operations: uninterpreted result
+	// bit operations on integers: uninterpreted but functional (the same operands give the same result), so that contracts
+	// can speak about them through bitand / bitor / bitxor
+	if a.Sort == SInt && b.Sort == SInt && isInteger(v.X.Type()) {
+		name := ""
+		switch v.Op {
+		case token.AND:
+			name = "bitand"
+		case token.OR:
+			name = "bitor"
+		case token.XOR:
+			name = "bitxor"
+		}
+		if name != "" {
+			x.prog.U.AddFun(&FunDecl{Name: name, Params: []BVar{{"x", SInt}, {"y", SInt}}, Ret: SInt})
+			return SymApp(name, SInt, a, b)
+		}
+	}
+	// floats, shifts, other bit operations: uninterpreted result
 	x.abstr["binop "+v.Op.String()+" on "+v.X.Type().String()] = true
 	return x.freshValue(st, "binop", v.Type())
 }
